@@ -34,7 +34,7 @@ type RigConfig struct {
 	Cached   bool `json:"cached_planner"`
 	RealHTTP bool `json:"real_multiop_queryer"` // MultiOpQueryer + HTTP bridge between executor and fakes
 	MaxBatch int  `json:"max_batch_size,omitempty"`
-	Subs     bool `json:"subscriptions,omitempty"` // graphql-ws upstream per service, gateway behind a real HTTP server
+	Subs     bool `json:"subscriptions,omitempty"`             // graphql-ws upstream per service, gateway behind a real HTTP server
 	StallMs  int  `json:"stall_first_long_frame_ms,omitempty"` // client connections stall once between header and payload of a frame
 }
 
@@ -88,8 +88,10 @@ func (n nopQueryer) Query(in []*requests.Request) ([]map[string]interface{}, err
 	}
 	return out, nil
 }
-func (n nopQueryer) Subscribe(*requests.Request, <-chan struct{}, chan *requests.Response) error { return nil }
-func (n nopQueryer) URL() string                                                               { return n.url }
+func (n nopQueryer) Subscribe(*requests.Request, <-chan struct{}, chan *requests.Response) error {
+	return nil
+}
+func (n nopQueryer) URL() string { return n.url }
 
 func loadSchemas(sdls []string) ([]*ast.Schema, error) {
 	var out []*ast.Schema
